@@ -399,6 +399,14 @@ def _ann_masks(ctx, m: dict, index: int, all_masks_upto: int) -> list[int]:
 
 def run_shard(ctx) -> None:
     S.selfcheck_pools()
+    # sampled groups first (bounded by count), then the enumeration (bounded by its size); the wall budget only ends either early
+    # (the groups get at most 45% of the shard's wall budget so that a loaded machine cannot starve the enumeration)
+    full_budget = ctx.budget_s
+    ctx.budget_s = 0.45 * full_budget
+    try:
+        ctx.run_hypothesis(_hyp_strategy(ctx), check_case, ctx.scale(2500, 40000), describe=describe, salt="groups")
+    finally:
+        ctx.budget_s = full_budget
     max_params = ctx.scale(5, 8)
     all_masks_upto = ctx.scale(5, 7)
     shapes = S.all_shapes(max_params)
@@ -428,4 +436,3 @@ def run_shard(ctx) -> None:
                 ctx.case(1 if nt else None, ["sig:" + r, *(feats if r == "def" else ())], sample, enumerated=True)
             for f in fails:
                 ctx.fail(f, m)
-    ctx.run_hypothesis(_hyp_strategy(ctx), check_case, ctx.scale(3000, 40000), describe=describe, salt="groups")
